@@ -1530,6 +1530,25 @@ def convert_from_interleaved(args):
     if nargs % 2 == 1:
         # has output specified
         eq += f"->{''.join(symbol_map[ix] for ix in args[-1])}"
+    else:
+        # output is implicit: like numpy, the indices which appear once, in
+        # the sorted order of the *supplied* labels, which is not generally
+        # the sorted order of the symbols (assigned by first appearance)
+        counts = {}
+        for term in inputs:
+            for ix in term:
+                counts[ix] = counts.get(ix, 0) + 1
+        output = [
+            ix for ix, c in counts.items() if (c == 1) and (ix is not ...)
+        ]
+        try:
+            output.sort()
+        except TypeError:
+            # labels not mutually comparable, keep order of appearance
+            pass
+        # any ellipsis dimensions always come first
+        eq += "->" + ("..." if ... in counts else "")
+        eq += "".join(symbol_map[ix] for ix in output)
     return eq, arrays
 
 
